@@ -128,7 +128,16 @@ def strict_check(t, body):
             r.attrs()
             r.end()
         elif t == EXTREPLY:
-            pass
+            # the only extended reply this server sends: check-file = extension name, algorithm, n digests
+            ext = r.string("extension name")
+            alg = r.string("hash algorithm")
+            if ext != b"check-file":
+                raise Malformed("extended reply names extension %r" % ext[:20])
+            if alg not in (b"md5", b"sha1"):
+                raise Malformed("extended reply names hash algorithm %r" % alg[:20])
+            left = len(r.b) - r.i
+            if left % (16 if alg == b"md5" else 20):
+                raise Malformed("%d bytes of digests are not a whole number of %s digests" % (left, alg.decode()))
         else:
             return None
         return None
@@ -215,11 +224,25 @@ class Srv:
         self.sess.close()
 
 
+BOUNDARY_IDS = [0, 1, 0x7FFFFFFF, 0x80000000, 0xFEFFFFFF, 0xFF000000, 0xFF000001, 0xFFFFFFFF]
+
+
+def pick_id(rng):
+    """request ids over the whole uint32 range, its boundaries over-represented (paramiko's own client starts at 1
+    and never gets near the top; a raw client may use any id)"""
+    r = rng.random()
+    if r < 0.45:
+        return rng.choice(BOUNDARY_IDS)
+    if r < 0.6:
+        return rng.randrange(0xFF000000, 1 << 32)
+    return rng.randrange(0, 1 << 32)
+
+
 def gen_classified(rng, srv):
     """One request with its abstract classification.  Returns (t, payload, force, abs dict, cb code)."""
     t = rng.choice([3, 4, 5, 6, 13, 18, 14, 15, 11, 12, 17, 7, 8, 9, 10, 19, 20, 16, 200, 200, 200,
                     rng.choice([0, 1, 2, 21, 50, 100, 101, 102, 103, 104, 105, 106, 199, 201, 202, 255])])
-    rid = rng.randrange(0, 1 << 32)
+    rid = pick_id(rng)
     hkind = rng.choice(["f", "d", "n"])
     handle = {"f": srv.hF, "d": srv.hD, "n": rng.choice([b"nope", b"", b"hx999"])}[hkind]
     outcome = rng.choice(["ok", "ok", "code", "raise"])
@@ -374,7 +397,7 @@ def gen_classified(rng, srv):
 
 def gen_malformed(rng, srv):
     t = rng.choice([rng.randrange(0, 256), rng.choice([3, 5, 6, 9, 10, 12, 14, 200])])
-    rid = rng.randrange(0, 1 << 32)
+    rid = pick_id(rng)
     body = struct.pack(">I", rid)
     if t in (3, 9, 10, 14):
         # these decode an attribute block: keep the layout exact (name/handle, [pflags,] attributes) so that no
@@ -630,7 +653,8 @@ def run(ctx):
 
     threading.excepthook = lambda a: None
     ctx.rule = ("server: raw requests over every handled command, unknown and named-but-unhandled command numbers, "
-                "three handle kinds, callbacks forced to succeed / return codes 1..8 / raise, undecodable paths, every "
+                "request ids over the whole uint32 range with the boundaries 0, 1, 0x7fffffff, 0x80000000, 0xfeffffff, "
+                "0xff000000, 0xff000001, 0xffffffff over-represented, three handle kinds, callbacks forced to succeed / return codes 1..8 / raise, undecodable paths, every "
                 "extended tag and every exit of check-file (ranges beyond EOF included), directory listings and link "
                 "targets with names that cannot be encoded as UTF-8 (lone surrogates), 3000-character and non-ASCII "
                 "names; distinct = distinct "
@@ -655,6 +679,7 @@ def run(ctx):
             case = {"type": t, "payload": hx(body)[:160], "force": force, "abs": a, "cb": cb}
             ctx.case((t, tuple(sorted(a.items())), cb), t in VALID or t in (4, 6, 10))
             ctx.dist("cmd:%d" % t)
+            ctx.dist("id:" + ("boundary" if rid in BOUNDARY_IDS else "top-256th" if rid >= 0xFF000000 else "other"))
             ctx.dist("outcome:%s" % ("raise" if a["raises"] else "ok" if a["ok"] else "code"))
             if i % 180 == 0:
                 ctx.sample({"request": case, "response": resp})
@@ -784,7 +809,8 @@ META = {
               "failures are STATUS; every control-flow path through every branch of the source of _process and through its "
               "helpers calls a responder exactly once, and every exception path (sends so far + finally blocks + the catch-all "
               "in start_subsystem) too (source_paths_send_exactly_once, source_exception_paths_send_exactly_once, AST "
-              "tables); the READDIR answer's count field and entries come from the same list "
+              "tables); no response builder uses Message.add()/add_adaptive_int (fixed-width fields stay fixed-width for "
+              "every request id: source_responses_use_fixed_width_fields); the READDIR answer's count field and entries come from the same list "
               "(source_readdir_count_matches_entries); every packet type that a responder call in any branch of the *source* of _process "
               "and its helpers can emit is valid for that branch (table regenerated from the AST each run: "
               "source_branches_emit_valid_types), and the model stays within that table. Client: no call ever waits "
